@@ -3,6 +3,8 @@
 package run
 
 import (
+	"context"
+	"encoding/json"
 	"fmt"
 	"os"
 	"path/filepath"
@@ -30,7 +32,7 @@ func fifoRun(prog *mrogen.Program, src, dir string) (map[string]string, error) {
 	if err != nil {
 		return nil, err
 	}
-	defer sim.Close()
+	defer func() { sim.Close() }()
 	for i := 0; i < 4000; i++ {
 		sim.Refresh()
 		st := sim.State()
@@ -48,6 +50,28 @@ func fifoRun(prog *mrogen.Program, src, dir string) (map[string]string, error) {
 		}
 	}
 	res := map[string]string{}
+	// the serialized pipestance (what _finalstate holds and the API
+	// returns): nodes, forks with their indices, chunks, bindings - as this
+	// run built it, and as a fresh runtime re-attaching to the finished
+	// pipestance rebuilds it
+	norm := func(v any) string {
+		b, _ := json.MarshalIndent(v, "", " ")
+		return uniqRe.ReplaceAllString(strings.ReplaceAll(string(b), filepath.Dir(sim.Dir), "<DIR>"), "-uX")
+	}
+	st1 := sim.PS.SerializeState(context.Background())
+	res["state"] = norm(st1)
+	res["forkorder"] = forkOrder(st1)
+	if st := sim.State(); st == core.Complete || st == core.DisabledState {
+		sim.Close()
+		if re, err := simrun.Reattach(sim); err == nil {
+			st2 := re.PS.SerializeState(context.Background())
+			res["state-reattached"] = norm(st2)
+			res["forkorder-reattached"] = forkOrder(st2)
+			sim = re
+		} else {
+			res["state-reattached"] = "error: " + err.Error()
+		}
+	}
 	var listing []string
 	filepath.Walk(sim.Dir, func(p string, info os.FileInfo, err error) error {
 		if err != nil {
@@ -68,6 +92,30 @@ func fifoRun(prog *mrogen.Program, src, dir string) (map[string]string, error) {
 	sort.Strings(listing)
 	res["listing"] = strings.Join(listing, "\n")
 	return res, nil
+}
+
+// forkOrder: per node that ran, the fork directories in index order.  (A
+// map call that is disabled has the single fork it was created with while
+// the run that disabled it lives, and one per element once a fresh runtime
+// has restored the forks from the outputs on disk; none of them ever has a
+// directory, and the statement is about forks that exist.)
+func forkOrder(nodes []*core.NodeInfo) string {
+	var b strings.Builder
+	for _, n := range nodes {
+		if n.State != core.Complete {
+			continue
+		}
+		fmt.Fprintf(&b, "%s:", n.Fqname)
+		for _, f := range n.Forks {
+			name := ""
+			if f.Metadata != nil {
+				name = uniqRe.ReplaceAllString(filepath.Base(f.Metadata.Path), "-uX")
+			}
+			fmt.Fprintf(&b, " %d=%s", f.Index, name)
+		}
+		b.WriteString("\n")
+	}
+	return b.String()
 }
 
 var c10Seq int
@@ -91,7 +139,13 @@ func TestC10Run(t *testing.T) {
 			if err != nil {
 				// failures of the run itself are C01's business
 				stats.Count("C10", "run_error_skipped", 1)
+				if os.Getenv("VERIF_DEBUG") != "" {
+					fmt.Fprintf(os.Stderr, "run error: %v\n", err)
+				}
 				return
+			}
+			if a, b := got["forkorder"], got["forkorder-reattached"]; b != "" && a != b {
+				fail(t, "C10", "nondeterministic-run:forkorder-after-reattach", "the forks of a node are in a different order (or carry different indices) once a fresh runtime has re-attached to the finished pipestance:\n%s\n--- program\n%s", firstDiffStr(a, b), src)
 			}
 			if first == nil {
 				first = got
